@@ -1127,7 +1127,7 @@ def run(ctx):
                 "grids enumerated completely; a case is non-trivial when it is inside the stated domain "
                 "(out-of-domain tuples are counted but not executed)" % nmax)
     ctx.assume("Gram-Schmidt precondition: every leading Gram minor of the ordered rows w.r.t. the form is non-zero (exact test)")
-    ctx.assume("partial frames are partial: k < n for find_isometry / find_definite_isometry / orthogonal_complement")
+    ctx.assume("find_isometry is called with k = 1..n rows (k = n: a complete frame, the completion is empty but orthonormalisation and force_oriented still apply); k < n for find_definite_isometry / orthogonal_complement")
     ctx.assume("bounded condition number: integer rows with entries in [-3,3], forms with integer entries and |det| = 1 "
                "(cond(B) <= 1e4 required for diagonalize_form); measured library error on this domain <= 1e-12")
     ctx.assume("find_isometry 'preserves the form' = its rows are orthonormal for the form (Gram matrix diagonal +-1); by Sylvester's "
@@ -1158,11 +1158,11 @@ def run(ctx):
                          "demand": "arguments bitwise unchanged; same answer from fresh copies and from the same arrays again; earlier results not rewritten",
                          "excluded": "normalize / indefinite_orthogonalize (they rescale rows in place by design; flags are unchanged)"})
     ctx.product("orthogonalize", "checks.c18:case_orth_group", rowset_groups(nmax, m_rows, seed, False), domains=dom_forms, chunk=4)
-    ctx.product("find_isometry", "checks.c18:case_isometry_group", rowset_groups(nmax, m_rows, seed, True), domains=dom_forms, chunk=4)
+    ctx.product("find_isometry", "checks.c18:case_isometry_group", rowset_groups(nmax, m_rows, seed, False), domains=dom_forms, chunk=4)
     nb = 4 if q else 5
     ctx.product("orthogonalize-batch", "checks.c18:case_orth_batch", batch_cases(nb, m_rows, seed, False),
                 domains={"shapes": SHAPES_R2, "units": 5, "nmax": nb}, chunk=64)
-    ctx.product("find_isometry-batch", "checks.c18:case_isometry_batch", batch_cases(nb, m_rows, seed, True),
+    ctx.product("find_isometry-batch", "checks.c18:case_isometry_batch", batch_cases(nb, m_rows, seed, False),
                 domains={"shapes": SHAPES_R2, "units": 5, "nmax": nb}, chunk=64)
     ctx.product("find_definite_isometry", "checks.c18:case_definite_group",
                 rowset_groups(nmax, m_rows, seed, True, with_forms=False, nmin=2),
